@@ -188,3 +188,312 @@ Proof.
   - constructor.
   - constructor; [|constructor]. unfold small. simpl. reflexivity.
 Qed.
+
+(* ------------------------------------------------------------------------------------------ *)
+(* C08 x Image: file contents read back FROM THE IMAGE BYTES                                    *)
+(* ------------------------------------------------------------------------------------------ *)
+(* dedup_sound reads every file back from the block writer's own output file.  The theorems below compose it with
+   the whole-image writer of coq/Image (write_image: sqfs_writer_init + sqfs_writer_finish, Properties_C03.v) and
+   state the read-back over the bytes of the finished image: block size from the super block read from the image,
+   fragment table read from the image through its location list, inode = the LFile view the tree reader returns,
+   block bytes at absolute offsets, uncompressed when bit 24 of the size word is clear.
+   Glue (coq/ImgData/GlueModel.v): data_of = what [pack] appended behind the initial file content [file0]
+   (provisional super block + compressor options; the block writer appends at the current file size, so every
+   location is an absolute offset), frag_table_of = the fragment table it leaves, file_lkind = what a reader sees of the
+   file inode (blocks_start, file size, fragment index / offset or 0xFFFFFFFF, the size words). *)
+From SqfsV Require C14.SuperModel.
+From SqfsV Require Import C03.Common C01.InodeModel Img.TreeModel.
+From SqfsV Require Import Image.FinishModel Image.ReaderModel Image.ImageProofs.
+From SqfsV Require Import ImgData.GlueModel ImgData.BoundInv ImgData.ShiftProofs ImgData.Compose.
+From SqfsV Require ImgData.Example Img.ZrleProofs.
+
+(* ---- pack_refs_in_data_area ------------------------------------------------------------------ *)
+(* no location [pack] records points in front of the data area - for EVERY checksum function, compressor (no
+   contract needed), flag assignment, schedule, with or without HASH_COMPARE_ONLY / byte comparison: a fragment
+   table entry is (0, 0) (never filled; its size word is "sparse", nothing is read) or starts at or behind
+   |file0|; a file's block start lies at or behind |file0|, or every size word of the file is sparse (blocks_start
+   stays 0 for a file without a stored block).  This is what makes the rewrite of the super block by
+   sqfs_writer_finish harmless for the data reader. *)
+Theorem pack_refs_in_data_area :
+  forall (hashf : list N -> N) (compress : list N -> option (list N))
+         (uncompress : list N -> nat -> option (list N)) (bs : nat) (hash_only bytecmp : bool) (half : nat)
+         (file0 : list N) (files : list (uflags * list N)) (sched : list nat) (st : proc),
+  pack hashf compress uncompress bs hash_only bytecmp half file0 files sched = DedupModel.Ok st ->
+  (forall i, p_ftab st i = (0, 0%N) \/ length file0 <= fst (p_ftab st i)) /\
+  (forall fid, fid < length files ->
+     length file0 <= p_start st fid \/ forall k w, p_size st fid k = Some w -> sw_sparse w = true).
+Proof. exact pack_refs_behind. Qed.
+Print Assumptions pack_refs_in_data_area.
+
+(* ---- image_data_shift ------------------------------------------------------------------------ *)
+(* the shift lemma: write_image places the data area verbatim behind super block + options and never touches it
+   again, so every read at or behind |file0| that succeeds on the block writer's file gives the same bytes on the
+   image *)
+Theorem image_data_shift :
+  forall (hashf : list N -> N)
+         (dcompress : list N -> option (list N)) (duncompress : list N -> nat -> option (list N))
+         (bs half : nat),
+  (forall b c, dcompress b = Some c ->
+     length c < length b /\ forall n, length b <= n -> duncompress c n = Some b) ->
+  0 < bs -> (N.of_nat bs <= c_SQFS_MAX_BLOCK_SIZE)%N -> 0 < half ->
+  forall (mcompress : list N -> cres) (muncompress : list N -> option (list N)),
+  (forall b c, mcompress b = CData c -> (lenN c <= lenN b)%N /\ muncompress c = Some b) ->
+  forall limit, (limit <= 65535)%N ->
+  forall cfg inp w file0 files sched st,
+  length file0 = 96 + length (in_opts inp) ->
+  c_block_size cfg = N.of_nat bs ->
+  pack hashf dcompress duncompress bs false true half file0 files sched = DedupModel.Ok st ->
+  in_data inp = data_of (length file0) st ->
+  write_image mcompress limit cfg inp = Res.Ok w -> image_domain cfg inp = true -> image_fits w = true ->
+  forall off n x, length file0 <= off ->
+    DedupModel.read_at (w_file (p_wr st)) off n = Some x -> DedupModel.read_at (image_bytes w) off n = Some x.
+Proof. exact image_agrees. Qed.
+Print Assumptions image_data_shift.
+
+(* ---- image_file_contents_roundtrip ------------------------------------------------------------ *)
+(* for every checksum function, every data compressor and metadata compressor meeting their contracts, every
+   block size, file list, flag assignment and schedule: if the files are packed behind a provisional header of
+   96 + |options| bytes, and write_image is given the data area and the fragment table that run left and ANY tree,
+   inside the domain of the Image theorems, then reading the image back yields the tree (image_tree_roundtrip),
+   every view in it is the view of a node of the input tree, and for every view that carries what pack recorded for
+   file [fid] (block start, size, fragment reference, size words; any sparse byte count) the reader specification
+   run on the image bytes alone returns exactly the input bytes of that file.
+   Hypotheses that remain: the two compressor contracts; the domain of the Image theorems (image_domain: tree
+   representable, compressor id 1..6, fragment entries fit their fields, options = nothing or one metadata block;
+   image_fits: 32 / 16 bit location fields of the metadata, bytes_used < 2^64), write_image succeeds; block size of
+   the super block = block size of the block processor; the inode view equals file_lkind (shown computable on a
+   concrete tree below).  NOT a hypothesis: anything about the checksum, about where blocks lie, about the schedule. *)
+Theorem image_file_contents_roundtrip :
+  forall (hashf : list N -> N)
+         (dcompress : list N -> option (list N)) (duncompress : list N -> nat -> option (list N))
+         (bs half : nat),
+  (forall b c, dcompress b = Some c ->
+     length c < length b /\ forall n, length b <= n -> duncompress c n = Some b) ->
+  0 < bs -> (N.of_nat bs <= c_SQFS_MAX_BLOCK_SIZE)%N -> 0 < half ->
+  forall (mcompress : list N -> cres) (muncompress : list N -> option (list N)),
+  (forall b c, mcompress b = CData c -> (lenN c <= lenN b)%N /\ muncompress c = Some b) ->
+  forall limit, (limit <= 65535)%N ->
+  forall cfg inp w file0 files sched st,
+  length file0 = 96 + length (in_opts inp) ->
+  c_block_size cfg = N.of_nat bs ->
+  pack hashf dcompress duncompress bs false true half file0 files sched = DedupModel.Ok st ->
+  in_data inp = data_of (length file0) st ->
+  in_frags inp = frag_table_of st ->
+  write_image mcompress limit cfg inp = Res.Ok w -> image_domain cfg inp = true -> image_fits w = true ->
+  let t := in_tree inp in
+  exists lt,
+    spec_tree t (length t) (Res.nlen t) = Some lt /\
+    read_image_tree muncompress (image_bytes w) = Some lt /\
+    (forall v, In v (views lt) ->
+       exists n, get t (lv_ino v) = Some n /\ v = lview_of_fnode (lv_ino v) n) /\
+    (forall v fid fl d sp,
+       In v (views lt) -> nth_error files fid = Some (fl, d) ->
+       lv_kind v = file_lkind bs st fid (length d) sp ->
+       image_read_file muncompress duncompress (image_bytes w) (lv_kind v) = Some d).
+Proof. exact image_file_contents_l. Qed.
+Print Assumptions image_file_contents_roundtrip.
+
+(* the same with the hypothesis on the INPUT tree ("every tree whose file inodes carry what pack recorded"): if the
+   node with inode number [ino] is a file whose inode body shows what pack recorded for file [fid], then wherever that
+   inode occurs in the tree read from the image (several times for hard links) its contents read back as the input
+   bytes of [fid] *)
+Theorem image_file_contents_by_inode :
+  forall (hashf : list N -> N)
+         (dcompress : list N -> option (list N)) (duncompress : list N -> nat -> option (list N))
+         (bs half : nat),
+  (forall b c, dcompress b = Some c ->
+     length c < length b /\ forall n, length b <= n -> duncompress c n = Some b) ->
+  0 < bs -> (N.of_nat bs <= c_SQFS_MAX_BLOCK_SIZE)%N -> 0 < half ->
+  forall (mcompress : list N -> cres) (muncompress : list N -> option (list N)),
+  (forall b c, mcompress b = CData c -> (lenN c <= lenN b)%N /\ muncompress c = Some b) ->
+  forall limit, (limit <= 65535)%N ->
+  forall cfg inp w file0 files sched st,
+  length file0 = 96 + length (in_opts inp) ->
+  c_block_size cfg = N.of_nat bs ->
+  pack hashf dcompress duncompress bs false true half file0 files sched = DedupModel.Ok st ->
+  in_data inp = data_of (length file0) st ->
+  in_frags inp = frag_table_of st ->
+  write_image mcompress limit cfg inp = Res.Ok w -> image_domain cfg inp = true -> image_fits w = true ->
+  let t := in_tree inp in
+  exists lt,
+    read_image_tree muncompress (image_bytes w) = Some lt /\
+    forall ino n b fid fl d sp,
+      get t ino = Some n -> fn_payload n = PFile b ->
+      lkind_of_body b = file_lkind bs st fid (length d) sp ->
+      nth_error files fid = Some (fl, d) ->
+      forall v, In v (views lt) -> lv_ino v = ino ->
+        image_read_file muncompress duncompress (image_bytes w) (lv_kind v) = Some d.
+Proof. exact image_file_contents_by_inode_l. Qed.
+Print Assumptions image_file_contents_by_inode.
+
+(* non-vacuity (coq/ImgData/Example.v): four files, block size 4096, constant checksum (everything collides), the
+   toy run-length data compressor, the zero-run-length metadata compressor: a = 4096 x 'A' ++ 5 bytes, b = 3 bytes,
+   c = a, d = 4096 non-repeating bytes; all hypotheses of the theorem hold ... *)
+Example ex_image_contents_hyps :
+  (forall b c, DedupModel.toy_compress b = Some c ->
+     length c < length b /\ forall n, length b <= n -> DedupModel.toy_uncompress c n = Some b) /\
+  (forall b c, img_compress 3 b = CData c -> (lenN c <= lenN b)%N /\ img_uncompress 3 c = Some b) /\
+  match Example.ex_image with
+  | Some (st, w) =>
+    Example.ex_pack = DedupModel.Ok st /\
+    write_image (img_compress 3) GenC01.c_id_table_limit Example.ex_cfg (Example.ex_inp st) = Res.Ok w /\
+    length Example.ex_file0 = 96 + length (in_opts (Example.ex_inp st)) /\
+    c_block_size Example.ex_cfg = N.of_nat 4096 /\
+    in_data (Example.ex_inp st) = data_of (length Example.ex_file0) st /\
+    in_frags (Example.ex_inp st) = frag_table_of st /\
+    image_domain Example.ex_cfg (Example.ex_inp st) = true /\ image_fits w = true /\
+    map (fun n => lkind_of_payload (fn_payload n)) (firstn 4 (Example.ex_tree st)) =
+      [file_lkind 4096 st 0 (length Example.ex_A) 0; file_lkind 4096 st 1 (length Example.ex_B) 0;
+       file_lkind 4096 st 2 (length Example.ex_A) 0; file_lkind 4096 st 3 (length Example.ex_D) 0]
+  | None => False
+  end.
+Proof.
+  split; [exact toy_contract|]. split; [exact (ZrleProofs.img_contract 3 (or_intror eq_refl))|].
+  exact Example.ex_hyps.
+Qed.
+
+(* ... and its conclusion computes: the views of the tree read from the image (root directory, a, b, c, d), what the
+   reader specification returns for each of them, where the data lies (a and c share block start 96 and fragment
+   reference (0, 0); b's tail end follows at offset 5 of the same fragment block; d's uncompressed block starts at
+   100), the fragment table as read from the image (one uncompressed 8 byte block at 4196), the image size *)
+Example ex_image_contents_read_back :
+  match Example.ex_image with
+  | Some (st, w) =>
+    let img := image_bytes w in
+    match read_image_tree (img_uncompress 3) img with
+    | Some lt =>
+      Some lt = spec_tree (Example.ex_tree st) 5 5 /\
+      map (fun v => image_read_file (img_uncompress 3) DedupModel.toy_uncompress img (lv_kind v)) (views lt)
+      = [None; Some Example.ex_A; Some Example.ex_B; Some Example.ex_A; Some Example.ex_D] /\
+      map lv_kind (views lt)
+      = [LDir 0;
+         LFile 96 4101 0 0 0 [4]; LFile 0 3 0 0 5 []; LFile 96 4101 0 0 0 [4]; LFile 100 4096 0 NOX NOX [16781312]]%N /\
+      read_frags (img_uncompress 3) img (w_super w) = Some [(4196, 16777224, 0)]%N /\
+      lenN img = 8192%N
+    | None => False
+    end
+  | None => False
+  end.
+Proof. exact Example.ex_reads_back. Qed.
+
+(* ---- dedup_complete_blocks: all hypotheses together ------------------------------------------- *)
+(* the state of ex_complete_blocks (history [X], then the one-block file X again, j = 0) meets EVERY hypothesis of
+   dedup_complete_blocks at once: the WOpen invariant and the five side conditions *)
+Example ex_complete_blocks_rest :
+  let X := {| pb_sparse := false; pb_compressed := false; pb_chk := 0%N; pb_data := [1; 2; 3]%N |} in
+  let w := {| w_file := [1; 2; 3; 1; 2; 3]%N;
+              w_blocks := [info_of 0 X; info_of 3 X]; w_fstart := 1 |} in
+  let pre := [1; 2; 3]%N in let hist := [info_of 0 X] in let cur := [X] in
+  WOpen 0 w [] pre hist cur /\
+  0 < 4096 /\ cur <> [] /\ 0 + length cur <= length hist /\
+  hashes_match (firstn (length cur) (skipn 0 hist)) (infos (length pre) cur) = true /\
+  DedupModel.slice pre (bi_off (nth 0 hist dflt_bi)) (length (cat cur)) = cat cur.
+Proof.
+  pose proof ex_complete_blocks as H. cbv zeta in H. destruct H as [HW _].
+  cbv zeta. split; [exact HW|]. split; [apply Nat.lt_0_succ|]. split; [discriminate|].
+  split; [apply le_n|]. split; vm_compute; reflexivity.
+Qed.
+
+(* ---- image_real_reader_agrees ---------------------------------------------------------------- *)
+(* the model of the REAL data reader (coq/C10/DataModel.v: lib/sqfs/src/data_reader.c with its two block caches;
+   decompressor oracle U_of duncompress = the data decompressor behind C10's do_block interface, file = pread on the
+   image) on the image that pack + write_image produce.  C10's agreement theorems (agree_read, agree_get_block,
+   agree_get_fragment, agree_stream) ASSUME that the file is "laid out the way the library writes files"
+   (AgreeProofs.wf_file); here that is PROVED from C08's block processor invariant and the shift into the image, for
+   every file inode view that carries what pack recorded - so sqfs_data_reader_read, the stream reader,
+   sqfs_data_reader_get_fragment and sqfs_data_reader_get_block return the file's input bytes / tail end / blocks,
+   whatever the caches hold (any coherent reader state with the fragment table of the image).
+   Additional hypotheses: file size < 2^31 - 1 (wf_small: the positional read clamps its size argument), image shorter
+   than 2^63 bytes (pread).  Still outside: loading the fragment table through the real meta reader
+   (frag_table_read); the table object is taken to hold the entries the reader specification read_frags returns
+   (image_reader_table_is_packs). *)
+From SqfsV Require C10.MetaModel C10.DataModel C10.DataProofs C10.AgreeProofs.
+From SqfsV Require Import ImgData.RealBlocks ImgData.RealReader ImgData.RealCompose.
+From SqfsV Require ImgData.ExampleReal.
+
+Theorem image_real_reader_agrees :
+  forall (hashf : list N -> N)
+         (dcompress : list N -> option (list N)) (duncompress : list N -> nat -> option (list N))
+         (bs half : nat),
+  (forall b c, dcompress b = Some c ->
+     length c < length b /\ forall n, length b <= n -> duncompress c n = Some b) ->
+  0 < bs -> (N.of_nat bs <= c_SQFS_MAX_BLOCK_SIZE)%N -> 0 < half ->
+  forall (mcompress : list N -> cres) (muncompress : list N -> option (list N)),
+  (forall b c, mcompress b = CData c -> (lenN c <= lenN b)%N /\ muncompress c = Some b) ->
+  forall limit, (limit <= 65535)%N ->
+  forall cfg inp w file0 files sched st,
+  length file0 = 96 + length (in_opts inp) ->
+  c_block_size cfg = N.of_nat bs ->
+  pack hashf dcompress duncompress bs false true half file0 files sched = DedupModel.Ok st ->
+  in_data inp = data_of (length file0) st ->
+  write_image mcompress limit cfg inp = Res.Ok w -> image_domain cfg inp = true -> image_fits w = true ->
+  (N.of_nat (length (image_bytes w)) < MetaModel.off_t_limit)%N ->
+  let U := U_of duncompress in
+  let file := MetaModel.read_at (image_bytes w) in
+  forall fid fl d sp f,
+  nth_error files fid = Some (fl, d) ->
+  (N.of_nat (length d) < 2147483647)%N ->
+  finode_of_lkind (file_lkind bs st fid (length d) sp) = Some f ->
+  exists cs tail,
+    concat cs ++ tail = d /\
+    AgreeProofs.wf_file U file (N.of_nat bs) (frag_table_of st) f cs tail /\
+    (forall dr, DataProofs.dcoherent U file (N.of_nat bs) dr -> DataModel.d_tbl dr = frag_table_of st ->
+       fst (DataModel.api_read U file (N.of_nat bs) true dr f 0 (DataModel.f_size f)) = MetaModel.Ok d /\
+       fst (DataModel.api_get_fragment U file (N.of_nat bs) dr f) = MetaModel.Ok tail /\
+       forall n, (DataModel.f_size f <= n)%N ->
+         fst (fst (DataModel.stream_read U file (N.of_nat bs) dr (DataModel.stream_create f) n)) = MetaModel.Ok d) /\
+    (forall i, i < length cs ->
+       DataModel.api_get_block U file (N.of_nat bs) f (N.of_nat i) = MetaModel.Ok (nth i cs [])).
+Proof. exact image_real_reader_l. Qed.
+Print Assumptions image_real_reader_agrees.
+
+(* the fragment table the reader specification reads from the image, stripped of the unused field, is the table
+   [pack] left: a reader object that loaded it satisfies d_tbl dr = frag_table_of st *)
+Theorem image_reader_table_is_packs :
+  forall (mcompress : list N -> cres) (muncompress : list N -> option (list N)),
+  (forall b c, mcompress b = CData c -> (lenN c <= lenN b)%N /\ muncompress c = Some b) ->
+  forall limit, (limit <= 65535)%N ->
+  forall cfg inp w st,
+  in_frags inp = frag_table_of st ->
+  write_image mcompress limit cfg inp = Res.Ok w -> image_domain cfg inp = true -> image_fits w = true ->
+  exists frags, read_frags muncompress (image_bytes w) (w_super w) = Some frags /\
+                reader_table frags = frag_table_of st.
+Proof. exact image_reader_table. Qed.
+Print Assumptions image_reader_table_is_packs.
+
+(* non-vacuity: on the image of ex_image_contents_hyps (its hypotheses are those of this theorem, plus the two size
+   bounds, which compute) the real reader model with empty caches and the table read from the image returns, per inode
+   view (root, a, b, c, d): the contents through sqfs_data_reader_read and through the stream reader, the tail ends
+   through _get_fragment, block 0 through _get_block *)
+Example ex_image_real_reader :
+  match Example.ex_image with
+  | Some (st, w) =>
+    let img := image_bytes w in
+    let U := U_of DedupModel.toy_uncompress in
+    let file := MetaModel.read_at img in
+    match read_image_tree (img_uncompress 3) img, read_frags (img_uncompress 3) img (w_super w) with
+    | Some lt, Some frags =>
+      let dr := DataModel.mkDr (reader_table frags) None None in
+      reader_table frags = frag_table_of st /\
+      (lenN img <? MetaModel.off_t_limit)%N = true /\
+      map (fun v => match finode_of_lkind (lv_kind v) with
+                    | Some f => ExampleReal.ex_out (fst (DataModel.api_read U file 4096 true dr f 0 (DataModel.f_size f)))
+                    | None => None end) (views lt)
+      = [None; Some Example.ex_A; Some Example.ex_B; Some Example.ex_A; Some Example.ex_D] /\
+      map (fun v => match finode_of_lkind (lv_kind v) with
+                    | Some f => ExampleReal.ex_out (fst (fst (DataModel.stream_read U file 4096 dr (DataModel.stream_create f) 5000)))
+                    | None => None end) (views lt)
+      = [None; Some Example.ex_A; Some Example.ex_B; Some Example.ex_A; Some Example.ex_D] /\
+      map (fun v => match finode_of_lkind (lv_kind v) with
+                    | Some f => ExampleReal.ex_out (fst (DataModel.api_get_fragment U file 4096 dr f))
+                    | None => None end) (views lt)
+      = [None; Some [1; 2; 3; 4; 5]%N; Some Example.ex_B; Some [1; 2; 3; 4; 5]%N; Some []] /\
+      map (fun v => match finode_of_lkind (lv_kind v) with
+                    | Some f => ExampleReal.ex_out (DataModel.api_get_block U file 4096 f 0)
+                    | None => None end) (views lt)
+      = [None; Some (repeat 65%N 4096); None; Some (repeat 65%N 4096); Some Example.ex_D]
+    | _, _ => False
+    end
+  | None => False
+  end.
+Proof. exact ExampleReal.ex_real_reader. Qed.
